@@ -16,8 +16,8 @@ from .common import FileSpec, VarSpec
 PROPERTY = 'C01'
 LEVEL = 'model_checking'
 ASSUMPTIONS = [
-    'files are drawn from a catalogue of three well-formed structures (ranks '
-    '0-3, a length-1 dimension, an unlimited dimension, masked/coordinate/'
+    'files are drawn from a catalogue of four well-formed structures (ranks '
+    '0-4, a length-1 dimension, an unlimited dimension, masked/coordinate/'
     'scalar variables); dimension lengths and data values are concrete '
     '(numpy allocates concrete shapes; structure does not depend on data), '
     'operation arguments are symbolic',
@@ -223,7 +223,7 @@ def obligations(tier):
                 'renameDimension', 'insertDimension(before=True)',
                 'mask(greater)', 'eval(C = A * 2,copyall=False)',
                 'fn.reduce_dim', 'fn.slice_dim')]
-            if sn == 's3':
+            if sn in ('s3', 's4'):
                 firsts = firsts[:4]
         else:
             firsts = app
